@@ -39,6 +39,7 @@ type Step struct {
 	Rounds int    `json:"rounds,omitempty"`
 	Gate   string `json:"gate,omitempty"`
 	Key    uint64 `json:"key,omitempty"`
+	State  string `json:"state,omitempty"` // setstate: the lifecycle state forced on node N ("Left": the node stops answering, a crash as its peers see it)
 }
 
 type Scenario struct {
@@ -311,7 +312,7 @@ func (x *runner) run() {
 	x.never = make(chan struct{})
 	gates := x.sc.Gates
 	x.sched.GatesOp = func(p string, op *verifkit.Op) bool {
-		if strings.HasPrefix(p, "stab:") { // only a stabilize round run as an operation parks here, not the advisory inside a join / leave
+		if strings.HasPrefix(p, "stab:") || strings.HasPrefix(p, "stn:") { // only a stabilize round run as an operation parks here, not the advisory inside a join / leave
 			if !strings.HasPrefix(op.Name, "sb") {
 				return false
 			}
@@ -363,6 +364,14 @@ func (x *runner) run() {
 			x.byID.put(n)
 			err := n.Create()
 			x.emit(i, st, "", "", ring.ErrClass(err))
+		case "setstate": // not a protocol step: the node is made to look crashed (Left) to its peers, or to answer again
+			n := x.r.Node(st.N)
+			for _, c := range []chord.State{chord.Inactive, chord.Joining, chord.Active, chord.Transferring, chord.Leaving, chord.Left} {
+				if c.String() == st.State {
+					n.VerifSetState(c)
+				}
+			}
+			x.emit(i, st, "", "", n.VerifState().String())
 		case "start":
 			op, status := x.sched.Start(st.Op, x.startOp(st))
 			x.ops[st.Op] = op
